@@ -135,8 +135,8 @@ type spec[T any] struct {
 	n          int64
 }
 
-func (s *spec[T]) meta() *pairMeta   { return &s.pairMeta }
-func (s *spec[T]) evaluated() int64  { return atomic.LoadInt64(&s.n) }
+func (s *spec[T]) meta() *pairMeta  { return &s.pairMeta }
+func (s *spec[T]) evaluated() int64 { return atomic.LoadInt64(&s.n) }
 func (s *spec[T]) shards(*ctx) int {
 	if s.bulk == nil {
 		return 0
@@ -155,7 +155,7 @@ func short(s string) string {
 }
 
 // decide runs one value through the pair and the oracle.
-func (s *spec[T]) decide(c *ctx, v T) {
+func (s *spec[T]) decide(c *ctx, v T) (determined bool) {
 	var text string
 	var got T
 	var err error
@@ -167,11 +167,11 @@ func (s *spec[T]) decide(c *ctx, v T) {
 	}
 	if p, txt := ev.Guard(func() { text = s.enc(v) }); p {
 		report(finding{rule: "panic", class: "encode", got: "panic: " + txt, want: "no panic"})
-		return
+		return true
 	}
 	if p, txt := ev.Guard(func() { got, err = s.dec(text) }); p {
 		report(finding{rule: "panic", class: "decode", got: "panic: " + txt, want: "no panic"})
-		return
+		return true
 	}
 	fs, und := s.oracle(v, text, got, err)
 	if und != "" {
@@ -179,7 +179,7 @@ func (s *spec[T]) decide(c *ctx, v T) {
 		if c.replay {
 			fmt.Printf("  undetermined class %q (no-panic only)\n", und)
 		}
-		return
+		return false
 	}
 	for _, f := range fs {
 		report(f)
@@ -187,6 +187,7 @@ func (s *spec[T]) decide(c *ctx, v T) {
 	if c.replay {
 		fmt.Printf("  value=%s text=%q decoded=%s err=%v findings=%d\n", s.show(v), text, s.show(got), err, len(fs))
 	}
+	return true
 }
 
 func (s *spec[T]) runSpecial(c *ctx) {
@@ -196,37 +197,40 @@ func (s *spec[T]) runSpecial(c *ctx) {
 	}
 	k := 0
 	s.special(c, func(v T) {
-		q := s.quick(v)
-		key := s.Name + "|" + s.bits(v)
-		if s.Trivial {
-			c.r.Eval(1)
-		} else {
-			c.r.Case(key)
-		}
-		s.specialSet[q] = struct{}{}
+		s.specialSet[s.quick(v)] = struct{}{}
 		atomic.AddInt64(&s.n, 1)
-		s.decide(c, v)
-		if k == 3 && !s.Trivial {
-			t := s.enc(v)
-			c.r.Sample(map[string]any{"pair": s.Name, "value": s.show(v), "text": t})
+		if s.decide(c, v) && !s.Trivial {
+			c.r.Case(s.Name + "|" + s.bits(v))
+		} else {
+			c.r.Eval(1)
+		}
+		if k == 5 && sampled[s.Name] {
+			c.r.Sample(map[string]any{"pair": s.Name, "value": s.show(v), "text": s.enc(v)})
 		}
 		k++
 	})
 }
 
+// pairs whose sixth special case is copied into the evidence samples
+var sampled = map[string]bool{"conv.Int64ToString": true, "conv.Float64ToString": true, "json.EncodeStringFloat32": true, "conv.DateTimeToString": true,
+	"json.EncodeDate": true, "json.EncodeTime": true, "json.EncodeUnixMilli": true, "json.EncodeDuration": true, "json.EncodeUUID": true,
+	"json.EncodeIPv6": true, "json.EncodeMAC": true, "conv.URLToString": true}
+
 func (s *spec[T]) runBulk(c *ctx, shard int) {
-	var n int64
+	var n, det int64
 	s.bulk(c, shard, func(v T) {
 		if _, dup := s.specialSet[s.quick(v)]; dup {
 			return
 		}
 		n++
-		s.decide(c, v)
+		if s.decide(c, v) {
+			det++
+		}
 	})
 	atomic.AddInt64(&s.n, n)
 	c.r.Eval(int(n))
 	if !s.Trivial {
-		c.r.DistinctBulk(n)
+		c.r.DistinctBulk(det)
 	}
 }
 
@@ -328,6 +332,11 @@ func inventory(r *ev.Run, pairs []pairI) {
 			phantom = append(phantom, q)
 		}
 	}
+	for _, l := range []*[]string{&unpaired, &untabled, &phantom, &helpers} {
+		if *l == nil {
+			*l = []string{}
+		}
+	}
 	sort.Strings(unpaired)
 	sort.Strings(untabled)
 	sort.Strings(phantom)
@@ -373,7 +382,6 @@ func Main(args []string) int {
 			if p.meta().Name == w.Pair {
 				found = true
 				fmt.Printf("replay pair=%s encoder=%s decoder=%s value=%s bits=%s\n", w.Pair, p.meta().Enc, p.meta().Dec, w.Value, w.Bits)
-				p.runSpecial(&ctx{r: ev.New("C13", "exploration"), sigSeen: map[string]*int64{}}) // builds nothing observable; keeps replay self-contained
 				if err := p.replayBits(c, w.Bits); err != nil {
 					fmt.Println("ERROR cannot rebuild the witness value:", err)
 					return 2
